@@ -45,7 +45,10 @@ def judge(d):
     scale = d["scale"]
     ntomo = (3 if d.get("three") else 2) if d["batch"] else 1
     imgs = [gen.smooth_noise(d["seed"] + t, ish, sigma=1.0) for t in range(ntomo)]
-    if d.get("idtype", "float32") != "float32":
+    if d.get("idtype", "float32") == "float16":
+        # half-precision tomograms (MRC mode 12): the block sums need more range and precision than the storage dtype
+        imgs = [(im * 30.0 + 400.0).astype(np.float16) for im in imgs]
+    elif d.get("idtype", "float32") != "float32":
         # integer tomograms (MRC modes 0 / 1 / 6): the block sums do not fit the input dtype
         imgs = [np.clip(np.round(im * 30.0) + (100 if d["idtype"] == "uint8" else 0), 0 if d["idtype"] == "uint8" else -120, 250 if d["idtype"] == "uint8" else 120).astype(d["idtype"]) for im in imgs]
     nm = len(d["mols"])
@@ -205,7 +208,7 @@ def cases(draw):
     mols = [{"k": [draw(st.integers(0, 30)) for _ in range(3)], "f": [round(draw(st.floats(0, 1)), 3) for _ in range(3)],
              "rot": draw(gen.rotvecs())} for _ in range(draw(st.integers(1, 4)))]
     return {"rebin": draw(st.sampled_from([None, None, "same", 2, 3])), "ids": draw(st.sampled_from([None, None, [7, 3, 5], [2, 0, 1], [10, 20, 30]])),
-            "idtype": draw(st.sampled_from(["float32", "float32", "float32", "int8", "uint8", "int16"])),
+            "idtype": draw(st.sampled_from(["float32", "float32", "float32", "int8", "uint8", "int16", "float16"])),
             "btype": draw(st.sampled_from(["int", "int", "np.int64", "np.uint8"])),
             "b": b, "box": box, "ishape": ish, "chunks": chunks, "compute": draw(st.booleans()), "batch": draw(st.booleans()),
             "scale": draw(gen.scales), "order": draw(st.sampled_from([0, 1, 3])), "cls": cls, "mols": mols, "seed": draw(gen.seeds),
